@@ -600,7 +600,7 @@ func TestVerif_C28(t *testing.T) {
 	}
 	// delay bounding (every departure from the default thread order costs 1) and
 	// CHESS preemption bounding (switches at blocking points are free)
-	modes := vlib.Pick(r, []mode{{false, 2}, {true, 1}}, []mode{{false, 3}, {true, 2}})
+	modes := vlib.Pick(r, []mode{{false, 3}, {true, 1}}, []mode{{false, 4}, {true, 2}})
 	if v := os.Getenv("VERIF_C28_BOUND"); v != "" {
 		var b int
 		fmt.Sscan(v, &b)
